@@ -1,13 +1,24 @@
 (* C03 - Every valid RFC 9535 query is accepted by compile().
 
-   Full statement (NOT proved in full):
+   Full statement (NOT proved in full; kept here so that it is never quietly weakened):
 
-     C03_complete : forall s q, rfc_query s -> denotes s q -> wt_query builtin_registry q = true ->
-                    ints_in_range (-(2^53)+1) (2^53-1) q = true -> m_compile default_cfg s = Ok q
+     C03_complete : forall s q, rfc_query s -> denotes s q -> wt_query (reg cfg) q = true -> ints_in_range (min_idx cfg) (max_idx cfg) q = true ->
+                    m_compile cfg s = Ok q
 
-   Proved: the validity oracle the check evaluates on every generated query - grammar membership (sound and
-   complete recognizer), the RFC 2.4.3 typing judgement and the integer-range predicate are the Coq definitions
-   of Spec/; float(text) used for number literals never fails on a grammatical number (C03_number_total_partial). *)
+   Proved below (all for every registry and integer range):
+     C03_tokens_complete    - the parser half: every token sequence the typed token grammar QT derives for q (RFC ABNF minus the lexical
+                              layer; typing and integer range as side conditions; shorthand and bracket notation, both quote styles, any
+                              parentheses) is accepted by Parser.parse, which returns q;
+     C03_canonical_text     - the lexer half for one spelling of every query: the canonical text str(q) of ANY well-typed in-range query
+                              (nested filters, calls, every operator; literals that survive repr()) compiles, to q with omitted slice steps
+                              made explicit;
+     C03_converse           - the other inclusion in full: whatever compiles is derivable from the ABNF (C04_sound), and its tokens are
+                              derived by QT for the query returned;
+     the validity oracle the check evaluates on every generated query - grammar membership (sound and complete recognizer), the RFC 2.4.3
+     typing judgement and the integer-range predicate are the Coq definitions of Spec/; float(text) never fails on a grammatical number.
+   What remains unproved: that the lexer cuts EVERY spelling of a derivable token sequence (any blank space, either quote style, every
+   escape form, every number spelling) into that sequence - known for the canonical spelling only; the check renders every generated
+   valid query in every lexical form and requires it to compile to the generating structure. *)
 From JP Require Import Base.Json Spec.Abnf Spec.Rfc9535Grammar Model.PyFloat.
 
 Theorem C03_oracle_sound_partial : forall s, in_rfc s = true -> rfc_query s.
@@ -45,6 +56,28 @@ Print Assumptions C03_number_total_partial.
 
 Example C03_example : in_rfc [36;46;128512;91;63;64;61;61;45;48;46;53;101;43;50;93]%N = true.   (* $.<U+1F600>[?@==-0.5e+2] *)
 Proof. vm_compute. reflexivity. Qed.
+
+(* ---- what is proved of the headline ---- *)
+From JP Require Import Model.Tokens Model.Ast Model.Parse Model.Api Model.Serialize Spec.Types Spec.Printable Proofs.StringProofs Proofs.Requery Proofs.ParseComplete
+  Proofs.ParseSound Proofs.LexShape Proofs.ReparseF Proofs.TextSound.
+Theorem C03_tokens_complete : forall cfg q t v0 i0 v1 i1, QT cfg q t ->
+  exists s, p_parse cfg (tk T_ROOT v0 i0 :: t ++ [tk T_EOF v1 i1]) = POk q s.
+Proof. exact parse_complete. Qed.
+Print Assumptions C03_tokens_complete.
+
+Theorem C03_canonical_text : forall cfg q, in_range cfg 1 = true ->
+  wt_query (reg cfg) q = true -> ints_in_range (min_idx cfg) (max_idx cfg) q = true -> lx_query q = true ->
+  m_compile cfg (m_str q) = Ok (map cn_seg q).
+Proof. intros cfg q H1 Hw Hi Hl. apply compile_str_f; assumption. Qed.
+Print Assumptions C03_canonical_text.
+
+Theorem C03_converse : forall cfg text q, forallb is_scalar text = true -> m_compile cfg text = Ok q ->
+  rfc_query text /\ exists root t e, Model.Lex.m_tokenize text = Ok (root :: t ++ [e]) /\ QT cfg q t.
+Proof.
+  intros cfg text q Hs Hc. split; [exact (compile_text_sound cfg text q Hs Hc)|].
+  destruct (compile_sound_tokens cfg text q Hc) as (root & t & e & Ht & _ & _ & HQ). exists root, t, e. split; assumption.
+Qed.
+Print Assumptions C03_converse.
 
 (* the lexer's regular expressions and ESCAPES in the model are the ones REGENERATED from lex.py on this run *)
 From JP Require Import Proofs.TieLex Gen.LexConst Model.Lex.
